@@ -79,6 +79,8 @@ class VLoop(Loop):
                 # a dated activation goes to the wait queue - also if rounding makes its date equal to now
                 key = self.time + delay if delay is not None else at
                 self.queued.setdefault(key, []).append((target, signal))
+                if at is not None:
+                    self.ctx.dated[(id(target), id(signal))] = at      # an absolute date must be met exactly
             self.ctx.on_schedule(self, key, target, signal)
 
     def _run_coroutine(self, target, signal=None):
@@ -131,6 +133,7 @@ class Ctx:
         self.raised = []           # exception objects created by scenario code
         self.cancel_requests = []  # (task name, token, boundary) cancels requested by anyone
         self.findings = []         # monitor findings [(kind, detail)]
+        self.dated = {}            # (target, signal) -> absolute date requested from Loop.schedule(at=...)
         self.loops = []
         self.faults = {}
         for f in faults:
@@ -213,6 +216,9 @@ class Ctx:
                                                          'overtaken by', self.name_of(target), sigkind(signal))))
             else:
                 self.findings.append(('unqueued-activation', (now, self.name_of(target), sigkind(signal))))
+        want = self.dated.pop((id(target), id(signal)), None)
+        if want is not None and want != now:
+            self.findings.append(('date-missed', (self.name_of(target), sigkind(signal), 'requested for', want, 'ran at', now)))
         self.trace.append((loop.uid, now, self.name_of(target), sigkind(signal)))
 
     def post_activation(self, loop, target, signal):
